@@ -27,7 +27,8 @@ def handle : Handler := fun cmd j =>
         ("fail", .arr (states.map fun f => pathsJson (Spec.crashFailures fs es f)).toArray),
         ("failW", .arr (states.map fun f => pathsJson (Spec.crashFailuresW fs es f)).toArray),
         ("guards", .arr (((Pkgcore.C18.Spec.guardFailures fs es) ++
-            (if Spec.NoDirOverSymlink fs es then [] else ["dirsym"])).map Json.str).toArray)])
+            (if Spec.NoDirOverSymlink fs es then [] else ["dirsym"]) ++
+            (if Spec.NonDirsBelowRoot es then [] else ["rootentry"])).map Json.str).toArray)])
   | "c19.spec" =>
     match (do
       let fs ← parseFs j "fs"
